@@ -708,3 +708,58 @@ def field_source_reeval(db, ctx):
 def len_prefix_reeval(db, ctx):
     from . import C05
     C05.len_prefix(db, ctx)
+
+
+@rule("C06.matrix-index", "the compiler writes each connection cost to the cell the loader reads it from, for every matrix shape (re-evaluation of "
+                          "C02.matrix-index: with the other dimension as the row stride a well-formed non-square matrix makes the compiler index out of "
+                          "bounds — a panic — or land in cells the loader never reads)")
+def matrix_index_reeval(db, ctx):
+    from . import C02
+    C02.matrix_index(db, ctx)
+
+
+@rule("C06.refs-validated-for-every-entry", "validate_entries checks the word references (dictionary form, split A / B, word structure) of EVERY entry: the "
+                                            "validate_wid calls inside the entry loop are not skipped for entries that are not indexed (left id < 0) or on "
+                                            "any other ground taken from the connection ids — a hidden entry, reachable only as a split unit, with a dangling "
+                                            "reference would otherwise compile and fail at load / lookup")
+def refs_validated(db, ctx):
+    from ..loops import iterations
+    from ..db import deref_all
+    f = db.view(db.one("validate_entries", "LexiconReader"), keep=("validate_wid",))
+    seen = {}
+    for itn in iterations(f.hir):
+        if any(p.get("k") == "Match" and p.get("src") == "ForLoopDesugar" for p in itn["parents"]) or any(p.get("k") == "Closure" for p in itn["parents"]):
+            continue            # the outermost loop over the entries only
+        for c, _ in walk(itn["body"]):
+            if is_call(c) and path_ends(callee(c) or "", "validate_wid"):
+                what = peel(call_args(c)[-1])
+                label = what.get("v") if what.get("k") == "Lit" else render(what)
+                # scenario: a hidden entry (not indexed: left id = right id = -1, hence within the upper bounds) — the reference check
+                # must still be reachable
+                from ..flow import holds_at
+                from ..guards import cmp_atom, holds
+
+                def ev(atom):
+                    a = peel(atom)
+                    if not isinstance(a, dict):
+                        return None
+                    if is_call(a) and path_ends(callee(a) or "", "should_index"):
+                        return False
+                    cm = cmp_atom(a)
+                    if cm:
+                        for l_, r_, op in ((cm[1], cm[2], cm[0]), (cm[2], cm[1], {"Lt": "Gt", "Le": "Ge", "Gt": "Lt", "Ge": "Le", "Eq": "Eq", "Ne": "Ne"}[cm[0]])):
+                            l2 = peel_casts(deref_all(l_)) if isinstance(l_, dict) else {}
+                            if isinstance(l2, dict) and l2.get("k") == "Field" and l2.get("name") in ("left_id", "right_id"):
+                                r2 = peel_casts(deref_all(r_)) if isinstance(r_, dict) else {}
+                                if lit_int(r_) is not None:
+                                    return holds(op, -1, lit_int(r_))
+                                if isinstance(r2, dict) and r2.get("k") == "Field" and r2.get("name") in ("max_left", "max_right"):
+                                    return holds(op, -1, 1)
+                    return None
+                r = holds_at(path_conditions(c["id"], itn["body"]) or [], ev)
+                seen[label] = r
+                ctx.ob("validate_entries|#%d|hidden-entries-too" % len(seen), r is not False,
+                       "validate_wid(.., %r) is %s for an entry that is not indexed (left id -1)" % (label, "reachable" if r is not False else "SKIPPED"), fn=f, site=c.get("sp"))
+    if not seen:
+        raise AnchorMissing("validate_entries: validate_wid calls inside the entry loop")
+    ctx.floor(2)
